@@ -8,13 +8,15 @@ INSTRUMENTED_PKGS = [
 ]
 COMMONS_INSTRUMENTED = ["csync", "semaphore", "cchan", "rollback"]
 
+# gomaxprocs 1: between two scheduling points the goroutines of an execution run in the runtime's deterministic run-queue
+# order instead of in parallel on several OS threads (fewer replay divergences; the explorer owns the ordering that matters)
 FLOW = {"name": "flow", "pkg": "pkg/verifflow", "harness": "flow", "run": "^TestVerifFlow$", "instrument": True,
-        "shards": 16, "shards_thorough": 16}
+        "shards": 16, "shards_thorough": 16, "gomaxprocs": 1}
 
 V1_POINTS = ["pkg/lifecycle/stream/destination.go", "pkg/lifecycle/stream/destination_acker.go", "pkg/lifecycle/stream/source_acker.go"]
 V2_POINTS = ["pkg/lifecycle-poc/funnel/destination.go"]
 PREEMPT = {"name": "flow-preempt", "pkg": "pkg/verifflow", "harness": "flow", "run": "^TestVerifFlowPreempt$", "instrument": True,
-           "shards": 16, "shards_thorough": 16, "points": V1_POINTS + V2_POINTS}
+           "shards": 16, "shards_thorough": 16, "points": V1_POINTS + V2_POINTS, "gomaxprocs": 1}
 
 def preempt(points):
     d = dict(PREEMPT)
